@@ -92,6 +92,10 @@ class FreshnessDateDataParser:
 
         if date:
             date = apply_time(date, _time)
+            if hasattr(date.tzinfo, "localize"):
+                # the arithmetic above moved the wall clock but kept the base's
+                # UTC offset: let the zone pick the offset in force at the result
+                date = date.tzinfo.localize(date.replace(tzinfo=None))
             if settings.RETURN_TIME_AS_PERIOD and isinstance(_time, time):
                 period = "time"
 
